@@ -141,6 +141,7 @@ type ifdReader struct {
 	tiffHeaderOffset uint32
 	firstIfdOffset   uint32
 	exifLength       uint32
+	ended            bool // the source of the block being read has ended: pending values cannot be reached
 }
 
 func (ir *ifdReader) readIfdHeader(ifd ifds.Ifd) (err error) {
@@ -215,11 +216,14 @@ func (ir *ifdReader) readNextIfdTag(ifd ifds.Ifd) error {
 }
 
 func (ir *ifdReader) readIfd(ifd ifds.Ifd) (err error) {
+	ir.ended = false
 	if err = ir.readIfdHeader(ifd); err != nil {
 		return err
 	}
 
-	for t := ir.buffer.currentTag(); ir.buffer.validTag(); t = ir.buffer.advanceBuffer() {
+	// (pending values are visited in ascending order of their offsets: once the source has ended,
+	// none of the rest can be reached, and asking the source again for each of them is wasted)
+	for t := ir.buffer.currentTag(); ir.buffer.validTag() && !ir.ended; t = ir.buffer.advanceBuffer() {
 
 		if t.IsType(tag.TypeIfd) {
 			if err = ir.seekToTag(t); err != nil { // seek to next tag value
